@@ -637,7 +637,9 @@ class Canon:
             h = self.helper(f, call) if call is not None else None
             if h is None:
                 st = self._inline_exprs(f, st, depth)
-                hoisted = self._hoist_arg(f, st) if isinstance(st, (ast.Expr, ast.Assign, ast.Return, ast.AugAssign)) and not isinstance(getattr(st, "value", None), ast.ListComp) else None
+                hoisted = self._sum_over_generator(f, st) if isinstance(st, (ast.Expr, ast.Assign, ast.Return, ast.AugAssign)) else None
+                if hoisted is None:
+                    hoisted = self._hoist_arg(f, st) if isinstance(st, (ast.Expr, ast.Assign, ast.Return, ast.AugAssign)) and not isinstance(getattr(st, "value", None), ast.ListComp) else None
                 if hoisted is None:
                     hoisted = self._comp_to_loop(f, st)
                 if hoisted is not None:
@@ -732,6 +734,46 @@ class Canon:
 
         st.value = Rep().visit(st.value)
         return [tmp, st]
+
+    def _sum_over_generator(self, f, st):
+        """`... sum(E(v) for v in self._gen(..)) ...` with a private generator helper  ->  `_sum__gen = 0; for v in self._gen(..): _sum__gen += E(v)` followed by the statement
+        with the local in place of the sum (the loop is what `sum` does; the generator helper is then written out at the loop). Only when nothing with an effect is
+        evaluated before the sum in the statement."""
+        if st.value is None:
+            return None
+        cands = [c for c in _walk_no_defs(st.value) if isinstance(c, ast.Call) and isinstance(c.func, ast.Name) and c.func.id == "sum" and len(c.args) == 1 and not c.keywords
+                 and isinstance(c.args[0], ast.GeneratorExp) and len(c.args[0].generators) == 1 and not c.args[0].generators[0].is_async
+                 and isinstance(c.args[0].generators[0].iter, ast.Call) and isinstance(c.args[0].generators[0].target, ast.Name)
+                 and self.helper(f, c.args[0].generators[0].iter, generator=True) is not None]
+        if len(cands) != 1:
+            return None
+        c = cands[0]
+        # everything else in the statement must be pure (the sum moves to the front)
+        rest_pure = all(_is_pure(x, reads_ok=True) for x in ast.iter_child_nodes(st.value) if x is not c) if st.value is not c else True
+        if not rest_pure:
+            return None
+        g = c.args[0].generators[0]
+        h = self.helper(f, g.iter, generator=True)
+        self._k["sum " + h.name] = self._k.get("sum " + h.name, 0) + 1
+        k = self._k["sum " + h.name]
+        name = "_sum__%s%s" % (h.name.lstrip("_"), "" if k == 1 else "_%d" % k)
+        init = ast.Assign(targets=[ast.Name(id=name, ctx=ast.Store())], value=ast.Constant(value=0), lineno=st.lineno)
+        body = [ast.AugAssign(target=ast.Name(id=name, ctx=ast.Store()), op=ast.Add(), value=c.args[0].elt)]
+        for t in reversed(g.ifs):
+            body = [ast.If(test=t, body=body, orelse=[])]
+        loop = ast.For(target=ast.Name(id=g.target.id, ctx=ast.Store()), iter=g.iter, body=body, orelse=[], lineno=st.lineno)
+
+        class Rep(ast.NodeTransformer):
+            def visit_Call(self, n):
+                if n is c:
+                    return ast.copy_location(ast.Name(id=name, ctx=ast.Load()), n)
+                return self.generic_visit(n)
+
+        st.value = Rep().visit(st.value)
+        for o in (init, loop):
+            ast.copy_location(o, st)
+            ast.fix_missing_locations(o)
+        return [init, loop, st]
 
     def _comp_to_loop(self, f, st):
         """`x = [self._helper(v) for v in it]` / `x += [...]`  ->  `x = []` / nothing, then `for v in it: x.append(self._helper(v))` when the helper is one that is written
